@@ -3,6 +3,8 @@
 // logged as begin(thread, text) / end(thread, observation) with a global atomic sequence number.
 #[path = "../../vph/src/core.rs"]
 mod core;
+#[path = "../../vph/src/ops.rs"]
+mod ops;
 #[path = "../../vph/src/record.rs"]
 mod record;
 
